@@ -159,7 +159,12 @@ def _decode_channel_into(chunk, channel, buf, block_size):
     block_num_elem = block_size[0] * block_size[1] * block_size[2]
     for z, y, x in np.ndindex((gz, gy, gx)):
         # Read the block header
-        res = struct.unpack_from("<II", buf, 8 * (x + gx * (y + gy * z)))
+        try:
+            res = struct.unpack_from("<II", buf, 8 * (x + gx * (y + gy * z)))
+        except struct.error as exc:
+            raise InvalidFormatError(
+                "Invalid compressed_segmentation data: truncated block "
+                "header (inconsistent channel offsets?)") from exc
         lookup_table_offset = 4 * (res[0] & 0x00FFFFFF)
         bits = res[0] >> 24
         if bits not in (0, 1, 2, 4, 8, 16, 32):
